@@ -64,6 +64,10 @@ NEEDS = {
  "c07-read-decode-limit-64MiB": "a model whose in-memory size exceeds 64 MiB (about 1.4 million n-grams, a 20-35 MB file), loaded with Model::read",
  "c17-state-keeps-first-output-only": "a KyTea trie in which a non-entry state carries suffix outputs",
  "c20-line-limit-16MiB-splits-lines": "an input line longer than 16 MiB",
+ "c17-convert-tool-single-write-to-encoder": "the real convert_kytea_model binary on a KyTea file whose converted model exceeds 128 KiB",
+ "c05-update_raw-identical-slice-keeps-boundaries": "borrowed text, boundaries changed away from Unknown, then update_raw with the very same &str slice",
+ "c08-grapheme-filter-buffer-in-sentence": "ConcatGraphemeClustersFilter on a text with a multi-character cluster at index i, later the filter again on a longer text where the predictor puts a boundary at i",
+ "c20-wsconst-dedup-by-discriminant": "two different character-type --wsconst values next to each other and a boundary the dropped filter would remove",
  "c20-line-cache-stale-index-after-4096": "one predict process: a line, then more than 4096 distinct lines, then the first line again",
 }
 res = {}
